@@ -55,6 +55,7 @@ class Ctx:
         self.desc = []
         self.rvars = []
         self.dvars = []
+        self.operands = []
 
     def dvar(self, shape):
         x = self.m.dvar(shape)
@@ -189,6 +190,12 @@ def kinds_for(shape):
 
 def make_operand(ctx, kind, shape, rnd):
     """Return (real, ref).  Kinds build through the real API only."""
+    r = _make_operand(ctx, kind, shape, rnd)
+    ctx.operands.append(r)
+    return r
+
+
+def _make_operand(ctx, kind, shape, rnd):
     if kind == 'dvar':
         return ctx.dvar(shape)
     if kind == 'rvar':
@@ -616,7 +623,8 @@ def decide(item, ses, rnd):
                             sample=dict(shape=list(shape), entries=len(iv), impl0=str(iv[0])[:120], ref0=str(rv[0])[:120]))
     if res == 'unsat':
         st.nontrivial.add(label)
-        return 'ok'
+        bad = operands_unchanged(ses, item, ctx, label)
+        return 'ok' if bad is None else bad
     if res == 'sat':
         from ..smt import fval
         assign = {n: fval(model, env[n]) for n in names}
@@ -634,6 +642,36 @@ def decide(item, ses, rnd):
         return report(ses, item, label, 'value differs from NumPy at entry %d: rsome=%s numpy=%s' % bad[0],
                       {k: str(v) for k, v in assign.items()})
     return 'unknown'
+
+
+def operands_unchanged(ses, item, ctx, label):
+    """The operation must not change what its operands denote (expression objects are values): every
+    operand is read back after the operation and compared with its original reference."""
+    z3 = z3mod()
+    from rsome.lp import Affine, RoAffine
+    for k, (real, ref) in enumerate(ctx.operands):
+        if not isinstance(real, (Affine, RoAffine)):
+            continue      # variables and decision rules are re-expanded on every use
+        try:
+            impl, shape = impl_value(real, ctx)
+        except Inconsistent as e:
+            return report(ses, item, label, 'operand %d is corrupted by the operation: %s' % (k, e), None)
+        ref = parr(ref)
+        if isinstance(impl, tuple) or tuple(shape) != tuple(ref.shape):
+            return report(ses, item, label, 'operand %d changed shape through the operation' % k, None)
+        iv, rv = list(impl.reshape(-1)), list(ref.reshape(-1))
+        names = set()
+        for p in iv + rv:
+            names |= p.vars()
+        env = {n: z3.Real(n) for n in names}
+        diffs = [a.z3(env) != b.z3(env) for a, b in zip(iv, rv)]
+        if not diffs:
+            continue
+        res, model = ses.oblige(label + '/operand%d-unchanged' % k, [], [z3.Or(diffs)], kind='operand-unchanged', twin=False)
+        if res == 'sat':
+            return report(ses, item, label + '/operand', 'operand %d no longer denotes its original expression after the '
+                          'operation (in-place modification)' % k, None)
+    return None
 
 
 def _label(item):
